@@ -1,4 +1,5 @@
 import Bng.Proof.PppoeMonitor
+import Bng.Model.PppoeTimed
 /-
   C16 / C05 / C04 (PPPoE server, whole histories).  Statements for EVERY sequence of frames, RADIUS outcomes
   and idle sweeps from a fresh server (`init radius bits`):
@@ -89,6 +90,56 @@ theorem held_address_not_free (radius : Bool) (bits : Nat) (ins : List In) (sid 
     exact ⟨_, this, rfl⟩
   intro hmem
   exact (List.nodup_append.mp hW.pnd).2.2 a hmem a m1 rfl
+
+/-! ### the idle sweep against the clock -/
+
+open Bng.PppoeTimed in
+/-- every timed history (frames, hours passing, idle sweeps with a timeout) is a history of the untimed model in which each
+    sweep pass keeps exactly the sessions that had traffic within the timeout — so conservation, no-residue, distinct
+    addresses and the monitor refinement above hold for timed histories as they are -/
+theorem timed_projects (t : TSrv) (tis : List TIn) : (runT t tis).srv = run t.srv (project t tis) := by
+  induction tis generalizing t with
+  | nil => rfl
+  | cons ti rest ih =>
+    have h1 : runT t (ti :: rest) = runT (stepT t ti).1 rest := rfl
+    rw [h1, ih]
+    cases ti with
+    | frame i => simp only [project, untimed]; rfl
+    | age n => simp only [project, untimed]; rfl
+    | sweepT h => simp only [project, untimed]; rfl
+
+open Bng.PppoeTimed in
+/-- an idle sweep with a timeout of h hours removes a session iff it has been idle for more than h hours -/
+theorem sweep_keeps_exactly_the_active (t : TSrv) (h sid : Nat) (x : Sess)
+    (hx : AMap.lookup t.srv.sessions sid = some x) :
+    (AMap.lookup (stepT t (.sweepT h)).1.srv.sessions sid = some x ↔ idleOf t sid ≤ h) ∧
+    (AMap.lookup (stepT t (.sweepT h)).1.srv.sessions sid = none ↔ h < idleOf t sid) := by
+  have hl : AMap.lookup (stepT t (.sweepT h)).1.srv.sessions sid
+      = if (keepFor t h).contains sid then AMap.lookup t.srv.sessions sid else none := by
+    show AMap.lookup (t.srv.sessions.filter (fun p => (keepFor t h).contains p.1)) sid = _
+    exact Bng.Spec.C04.lookup_filter_key (fun k => (keepFor t h).contains k) _ _
+  have hk : (keepFor t h).contains sid = true ↔ idleOf t sid ≤ h := by
+    rw [List.contains_iff_mem]
+    simp only [keepFor, List.mem_map, List.mem_filter, decide_eq_true_eq]
+    constructor
+    · rintro ⟨p, ⟨_, hp⟩, rfl⟩; exact hp
+    · intro hle; exact ⟨(sid, x), ⟨AMap.mem_of_lookup hx, hle⟩, rfl⟩
+  rw [hl]
+  by_cases hc : (keepFor t h).contains sid = true
+  · have := hk.mp hc
+    rw [if_pos hc, hx]
+    constructor
+    · exact ⟨fun _ => this, fun _ => rfl⟩
+    · constructor
+      · intro e; cases e
+      · intro hlt; omega
+  · have hn : ¬ idleOf t sid ≤ h := fun e => hc (hk.mpr e)
+    rw [if_neg hc]
+    constructor
+    · constructor
+      · intro e; cases e
+      · intro e; exact absurd e hn
+    · exact ⟨fun _ => by omega, fun _ => rfl⟩
 
 /-! non-vacuity: the monitor does speak — on the sweep — and is silent on an ordinary history -/
 example : (runBoth (init true 30) (initMon true 30)
